@@ -19,7 +19,8 @@ if ! git -C /repo apply --check "$SEED/patch.diff" >/dev/null 2>&1; then
   echo "base=$BASE (the patch no longer applies to HEAD)"
 fi
 git -C /repo worktree add --detach "$W" "$BASE" >/dev/null 2>&1 || { echo "cannot create worktree"; exit 2; }
-cleanup() { git -C /repo worktree remove --force "$W" >/dev/null 2>&1; rm -rf "$W" /tmp/clover-test* /tmp/export-dir* 2>/dev/null; }
+T=$(mktemp -d /tmp/vseed-tmp.XXXXXX)
+cleanup() { git -C /repo worktree remove --force "$W" >/dev/null 2>&1; rm -rf "$W" "$T" 2>/dev/null; }
 trap cleanup EXIT
 place=$(head -1 "$SEED/seed_demo_test.go" | sed -n 's,^// place in: *,,p' | awk '{print $1}' | tr -d '\r')
 [ -z "$place" ] && place=.
@@ -31,9 +32,9 @@ echo "place=$place demo=$demo_name"
 ( cd "$W" && go build ./... ) || { echo "RESULT patched tree does not build"; exit 1; }
 /verif/tools/baseline.sh "$W" | tail -3
 cp "$SEED/seed_demo_test.go" "$W/$place/seed_demo_test.go"
-( cd "$W/$place" && go test -vet=off -count=1 -run "^${demo_name}\$" . >/tmp/vseed-with.$$ 2>&1 ); with=$?
+( cd "$W/$place" && TMPDIR="$T" go test -vet=off -count=1 -run "^${demo_name}\$" . >/tmp/vseed-with.$$ 2>&1 ); with=$?
 ( cd "$W" && git apply -R "$SEED/patch.diff" )
-( cd "$W/$place" && go test -vet=off -count=1 -run "^${demo_name}\$" . >/tmp/vseed-without.$$ 2>&1 ); without=$?
+( cd "$W/$place" && TMPDIR="$T" go test -vet=off -count=1 -run "^${demo_name}\$" . >/tmp/vseed-without.$$ 2>&1 ); without=$?
 echo "demo with patch: exit $with (expect !=0); without patch: exit $without (expect 0)"
 [ $with -eq 0 ] && tail -5 /tmp/vseed-with.$$
 [ $without -ne 0 ] && tail -15 /tmp/vseed-without.$$
